@@ -47,7 +47,7 @@ Proof. eexists. split; vm_compute; reflexivity. Qed.
 
    The invariants (QSg: queues, statuses, frames; the cells invariant of the saving mode; TI: the game's input
    history against the held inputs) hold in every state a run inside the space reaches: *)
-Definition CIm (sparse : bool) : Z -> p2p -> game -> Prop := if sparse then CIs else JI.
+Definition CIm (sparse : bool) : Z -> p2p -> game -> Prop := if sparse then CIs else JI1.
 
 Theorem C03_invariants_reachable :
   forall (predict : Z -> Z), (forall x, predict (predict x) = predict x) -> predict 0 = 0 ->
